@@ -36,7 +36,7 @@ func init() {
 		},
 		Floors: func(tier string) map[string]int64 {
 			return map[string]int64{"batches": 2000, "enumerated_single_fault_placements": 400, "slots_checked": 2000, "relocation_failed_in_later_round": 10, "retry_rounds_observed": 300,
-				"cancel_before": 15, "cancel_waiting": 15, "cancel_backoff": 15, "slots_success_payload_checked": 1000, "slots_own_error_checked": 200}
+				"cancel_before": 15, "cancel_waiting": 15, "cancel_backoff": 15, "slots_success_payload_checked": 1000, "slots_own_error_checked": 200, "own_context_calls_checked": 100}
 		},
 		Run: runC07,
 	})
@@ -169,10 +169,27 @@ func judgeC07(c *fw.Ctx, id string, run *batchRun) {
 				c.Violate(id, "batch:slot-holds-other-calls-error", fmt.Sprintf("slot %d (%s) holds %v: %s", i, opid, res.Error, b), b)
 			}
 		}
+		if i == run.OwnCtx && b.Trigger == "own-ctx-sibling-retried" {
+			// its reply is released only after SendBatch has returned: the call
+			// must end with its own context error, nothing else is judged
+			c.Count("own_context_calls_checked", 1)
+			if !isCtxErr(res.Error) {
+				c.Violate(id, "batch:own-context-error-missing", fmt.Sprintf("slot %d (%s): its own context was cancelled while it was unanswered, the batch reports %v: %s", i, opid, res.Error, b), b)
+			}
+			continue
+		}
+		if i == run.OwnCtx && b.Trigger == "own-ctx-reply-held" {
+			c.Count("own_context_calls_checked", 1)
+		}
 		switch {
 		case successDelivered:
 			if res.Error != nil && !(cancelling && isCtxErr(res.Error)) {
 				f := "batch:success-replaced-by-error"
+				if i == run.OwnCtx {
+					// (the response reached the client, with this call's result ahead of
+					// the one SendBatch was waiting for, after the call's context ended)
+					f = "batch:success-replaced-by-own-context-error"
+				}
 				if strings.Contains(res.Error.Error(), "table not found") {
 					f = "batch:success-replaced-by-relocation-error-of-another-call"
 				}
